@@ -5,6 +5,7 @@
   are observations of the runtime (tests in the harness), not theorems.
 -/
 import NiftyVerif.Lemmas.Rng
+import NiftyVerif.Lemmas.RngEmbed
 import Mathlib.Data.List.Nodup
 
 namespace NiftyVerif.C21
@@ -82,66 +83,8 @@ theorem unbalanced_body_raises (s : SeedSpec) (body k : Prog) (st st1 : St) (r :
 /-- **ctx_only_balanced**: programs that manage the stack through `Context` only (arbitrarily nested, with draws,
     spawns and raised exceptions anywhere) never pop below their entry depth and end at their entry depth — whether
     they return or raise.  So the hypotheses of `context_restores` hold for every such body. -/
-theorem ctx_only_balanced : ∀ (p : Prog) (st : St), ctxOnly p = true →
-    (exec p st).low = depth st ∧ depth (exec p st).st = depth st := by
-  intro p
-  induction p with
-  | done => intro st _; simp [exec]
-  | raise t => intro st _; simp [exec]
-  | push s k _ => intro st h; simp [ctxOnly] at h
-  | pop k _ => intro st h; simp [ctxOnly] at h
-  | draw req k ih =>
-    intro st h
-    simp only [ctxOnly] at h
-    unfold exec
-    cases hs : st.stack with
-    | nil => simp
-    | cons f rest =>
-      simp only
-      have := ih (drawSt st f rest req) h
-      simp only [depth, drawSt_stack, List.length_cons, hs] at this ⊢
-      exact this
-  | spawn n k ih =>
-    intro st h
-    simp only [ctxOnly] at h
-    unfold exec
-    cases hs : st.stack with
-    | nil => simp
-    | cons f rest =>
-      simp only
-      have := ih (spawnSt st f n) h
-      simp only [depth, spawnSt_stack, hs] at this ⊢
-      exact this
-  | ctx s body k ihb ihk =>
-    intro st h
-    simp only [ctxOnly, Bool.and_eq_true] at h
-    unfold exec
-    cases hr : resolve st s with
-    | none => simp
-    | some pr =>
-      obtain ⟨st1, r⟩ := pr
-      simp only
-      have hb := ihb (pushRef st1 r) h.1
-      rw [depth_pushRef] at hb
-      have hst : depth st1 = depth st := by simp [depth, (resolve_stack hr).1]
-      cases hs : (exec body (pushRef st1 r)).st.stack with
-      | nil => simp [depth, hs] at hb
-      | cons f rest =>
-        have hrl : rest.length = depth st1 := by
-          have := hb.2; simp only [depth, hs, List.length_cons] at this; simp only [depth]; omega
-        have hne : ¬ (rest.length ≠ depth st1) := by simp [hrl]
-        simp only
-        rw [if_neg hne]
-        cases ho : (exec body (pushRef st1 r)).out with
-        | exc e =>
-          simp only [depth, setStack_stack]
-          simp only [depth] at hrl hst hb
-          exact ⟨by omega, by omega⟩
-        | ok =>
-          simp only
-          have hk := ihk (setStack (exec body (pushRef st1 r)).st rest) h.2
-          simp only [depth, setStack_stack] at hk hrl hst hb ⊢
-          exact ⟨by omega, by omega⟩
+theorem ctx_only_balanced (p : Prog) (st : St) (h : ctxOnly p = true) :
+    (exec p st).low = depth st ∧ depth (exec p st).st = depth st := ctxOnly_balanced p st h
 
 /-- **nested_contexts_restore**: consequently, for ANY body built from draws, spawns, raises and nested Contexts,
     `with Context(s): body` restores the previous stack exactly, whether the body returns or raises -/
@@ -207,6 +150,65 @@ theorem draws_depend_only_on_seed (n : Nat) (rs : List Nat) (st : St) :
     simp only [setStack]
     rw [hout]; rfl
 
+/-- output and outcome of `with Context(s): body` are those of the body (for bodies that use Contexts only) -/
+theorem ctx_out (s : SeedSpec) (body : Prog) (st st1 : St) (r : Nat)
+    (hres : resolve st s = some (st1, r)) (hb : ctxOnly body = true) :
+    (exec (.ctx s body .done) st).st.out = (exec body (pushRef st1 r)).st.out ∧
+    (exec (.ctx s body .done) st).out = (exec body (pushRef st1 r)).out := by
+  have h := ctx_only_balanced body (pushRef st1 r) hb
+  rw [depth_pushRef] at h
+  have hc := context_restores s body .done st st1 r hres (by omega) h.2
+  simp only at hc
+  cases ho : (exec body (pushRef st1 r)).out with
+  | ok =>
+    have := hc.1 ho
+    rw [this.1, this.2]
+    simp [exec, setStack]
+  | exc e =>
+    have := hc.2 e ho
+    rw [this.1, this.2]
+    simp [setStack]
+
+/-- the canonical entry state: nothing on the stack, empty heap, no earlier output -/
+def canon : St := ⟨[], [], [], []⟩
+
+/-- **draws_depend_only_on_seed_full**: for EVERY body built from draws, spawns, raises and nested Contexts whose
+    nested contexts use fresh seeds or seed sequences spawned inside the body (`closedFrom false body`), the values drawn
+    anywhere inside `with Context(seed): body` — at any nesting depth, from spawned children too — and the way the body
+    ends are the same from every entry state: they equal what the canonical (empty) state produces.  History before the
+    context (stack contents, earlier draws and spawns, other seed sequences) has no influence. -/
+theorem draws_depend_only_on_seed_full (n : Nat) (body : Prog) (sp' : Bool)
+    (hb : ctxOnly body = true) (hc : closedFrom false body = some sp') (st : St) :
+    (exec (.ctx (.seed n) body .done) st).st.out = st.out ++ (exec (.ctx (.seed n) body .done) canon).st.out ∧
+    (exec (.ctx (.seed n) body .done) st).out = (exec (.ctx (.seed n) body .done) canon).out := by
+  have hres : resolve st (.seed n) = some ({ st with heap := st.heap ++ [(⟨n, [], 0⟩ : SeqObj)] }, st.heap.length) := rfl
+  have hresc : resolve canon (.seed n) = some ({ canon with heap := canon.heap ++ [(⟨n, [], 0⟩ : SeqObj)] }, canon.heap.length) := rfl
+  obtain ⟨h1, h2⟩ := ctx_out (.seed n) body st _ _ hres hb
+  obtain ⟨c1, c2⟩ := ctx_out (.seed n) body canon _ _ hresc hb
+  -- the state after entering is the canonical entered state embedded in the surroundings
+  let x0 : St := ⟨[⟨n, [], 0⟩], [⟨0, ⟨n, [], []⟩⟩], [], []⟩
+  let env : Env := ⟨st.heap, st.stack, st.out, st.lastSpawn⟩
+  have hcan : pushRef { canon with heap := canon.heap ++ [(⟨n, [], 0⟩ : SeqObj)] } canon.heap.length = x0 := by
+    simp [pushRef, canon, mkGen, x0]
+  have hemb : pushRef { st with heap := st.heap ++ [(⟨n, [], 0⟩ : SeqObj)] } st.heap.length = embed env false x0 := by
+    have hg : (st.heap ++ [(⟨n, [], 0⟩ : SeqObj)]).getD st.heap.length ⟨0, [], 0⟩ = ⟨n, [], 0⟩ := by simp [List.getD]
+    simp only [pushRef, hg, mkGen, embed, x0, env, shiftFrame, List.map_cons, List.map_nil, List.cons_append,
+      List.nil_append, List.append_nil, Nat.add_zero, Bool.false_eq_true, if_false]
+  obtain ⟨sp'', e1, e2, _⟩ := exec_embed body env false x0 sp' hb hc (by simp [x0])
+  rw [h1, h2, c1, c2, hcan, hemb, e1, e2]
+  exact ⟨rfl, rfl⟩
+
+/-- in particular two arbitrary entry states see the same new draws -/
+theorem draws_same_from_any_two_states (n : Nat) (body : Prog) (sp' : Bool)
+    (hb : ctxOnly body = true) (hc : closedFrom false body = some sp') (st st' : St) :
+    (exec (.ctx (.seed n) body .done) st).st.out.drop st.out.length =
+      (exec (.ctx (.seed n) body .done) st').st.out.drop st'.out.length ∧
+    (exec (.ctx (.seed n) body .done) st).out = (exec (.ctx (.seed n) body .done) st').out := by
+  obtain ⟨a1, a2⟩ := draws_depend_only_on_seed_full n body sp' hb hc st
+  obtain ⟨b1, b2⟩ := draws_depend_only_on_seed_full n body sp' hb hc st'
+  rw [a1, b1, a2, b2]
+  simp
+
 /-- **spawn_children_distinct**: the children of one `spawn(n)` have pairwise different spawn keys, all different from
     the parent's, and different from the keys of every later `spawn` of the same object (the counter advances) -/
 theorem spawn_children_distinct (o : SeqObj) (n m : Nat) :
@@ -268,5 +270,8 @@ example : (exec (.ctx (.seed 7) (.push (.seed 9) .done) .done) initSt).out = .ex
 example : let r := exec (.push (.seed 1) (.ctx (.seed 7) (.pop (.pop (.push (.seed 3) (.push (.seed 4) .done)))) .done)) initSt
     (r.out = .ok ∧ r.st.stack.map (·.gen.entropy) = [3, 42]) := by decide
 example : (children ⟨42, [3], 2⟩ 2).map (·.key) = [[3, 2], [3, 3]] := by decide
+-- a closed body with a spawned child context: accepted by `closedFrom`; a body using an OUTER spawn result is not
+example : closedFrom false (.spawn 2 (.ctx (.last 1) (.draw 0 .done) (.draw 1 .done))) = some true := by decide
+example : closedFrom false (.ctx (.last 0) (.draw 0 .done) .done) = none := by decide
 
 end NiftyVerif.C21
